@@ -38,7 +38,7 @@ def configs(tier, seed):
                 if algo == "SOO" and part == "B" and d == 1:
                     variants += [("-hmax2", {"h_max": 2}), ("-hmax3", {"h_max": 3})]
                 if algo == "StoSOO" and part in ("B", "K3") and d == 1:
-                    variants += [("-k3", {"k": 3}), ("-hmax2", {"h_max": 2}), ("-k1", {"k": 1})]
+                    variants += [("-k3", {"k": 3}), ("-hmax2", {"h_max": 2}), ("-k1", {"k": 1}), ("-k1-hmax1", {"k": 1, "h_max": 1}), ("-k1-hmax2", {"k": 1, "h_max": 2})]
                 if algo == "DOO":
                     variants = [("-defaultdelta", {"concrete_box": True}), ("-userdelta", {"delta": "user"})]
                 for tag, pr in variants:
@@ -47,6 +47,8 @@ def configs(tier, seed):
                         Tv = min(T, 5 + q)
                     if "hmax" in tag:
                         Tv = min(T, 6)
+                    if tag == "-k1-hmax2":
+                        Tv = 9  # 7 cells up to depth 2, then the cap is the only thing that stops the search
                     out.append({"name": "rule-%s-%s-d%d-T%d%s" % (algo, part, d, Tv, tag), "algo": algo, "part": part, "d": d, "T": Tv,
                                 "params": pr, "cost": Tv * d * arity(part, d)})
     out.append({"name": "twin-SOO", "algo": "SOO", "part": "B", "d": 1, "T": 3, "params": {}, "twin": True, "expect_fail": "twin"})
@@ -192,6 +194,6 @@ def run(ctx, cfg):
     if dom is None:
         dom = sym_box(ctx, cfg["d"])
     algo = build(ctx, c, dom)
-    algo2, dom, rs, lp = drive(ctx, ob_cfg, [ob], dom=dom, algo=algo, last_point=False)
-    if cfg.get("twin"):
+    algo2, dom, rs, lp = drive(ctx, ob_cfg, [ob], dom=dom, algo=algo, last_point=False, stop_on_none=True)
+    if cfg.get("twin") and len(rs) > 1:
         ctx.check_ge("twin", rs[0], rs[1], "reachability witness: deliberately false")
